@@ -109,8 +109,15 @@ class NonDominatedPriority(MOPriority):
         self.max_num_samples = max_num_samples
 
     def priority_unsafe(self, objectives: np.array) -> np.array:
-        return np.array(
+        # ``nondominated_sort`` returns the indices of the items in sorted
+        # order. The priority of an item is its position in that order (items
+        # cut off by ``max_num_samples`` share the last rank)
+        order = np.asarray(
             nondominated_sort(
                 X=objectives, dim=self.dim, max_items=self.max_num_samples
-            )
+            ),
+            dtype=int,
         )
+        ranks = np.full(objectives.shape[0], len(order), dtype=int)
+        ranks[order] = np.arange(len(order))
+        return ranks
